@@ -4,7 +4,7 @@
 a=${1:-1}; b=${2:-10}; tier=${3:-quick}
 ./verif setup >/dev/null 2>&1 || { echo "setup failed"; exit 2; }
 for seed in $(seq $a $b); do
-  for p in C16 C01 C06 C07 C12; do
+  for p in C16 C01 C06 C07 C12 C15; do
     out=$(VERIF_SEED=$seed ./verif check $p --tier $tier 2>&1); code=$?
     echo "seed=$seed $p exit=$code $(echo "$out" | grep -c '^KNOWN-FINDING') known"
     if [ $code -ne 0 ]; then echo "$out" | grep -E "^violation|^VIOLATION|HARNESS" | cut -c1-400; fi
